@@ -88,6 +88,7 @@ type Client struct {
 	Unavailable bool // all operations fail (etcd unreachable from this process)
 	C           *clientv3.Client
 	mu          sync.Mutex
+	nextWatch   int
 }
 
 // NewClient wires a real clientv3.Client to the fake server.
